@@ -110,7 +110,9 @@ Step ==
                                       /\ UNCHANGED <<vars, role, scripted, sentq, cur, rem, failed, msg, limI, limSure, rdG, bad, skip>>
             ELSE Same
        [] e.ev = "PongRcvd" ->
-            IF failed THEN Fail("violating-frame-acted-on:pong") ELSE Same
+            IF failed THEN Fail("violating-frame-acted-on:pong")
+            ELSE IF cur.op # OpPong THEN Fail("pong-processing-for-a-frame-that-is-not-a-pong")    \* e.g. a peer's Ping settling a local Ping
+            ELSE Same
        [] e.ev = "CloseRcvd" ->
             IF failed THEN Fail("invalid-close-frame-accepted")
             ELSE IF cur.op # OpClose THEN Fail("close-reported-without-a-close-frame")
